@@ -38,7 +38,7 @@ from wsproto.frame_protocol import Opcode
 
 PROPERTY = "C39"
 LEVEL = "exploration"
-BUDGET = {"quick": (500, 16), "thorough": (4000, 200)}
+BUDGET = {"quick": (400, 13), "thorough": (4000, 200)}
 WORKERS = {"quick": 2, "thorough": 16}
 REQUIRED = [
     "completion_appends_exactly_one",
